@@ -89,7 +89,7 @@ def render_item(ctx, src, s, e, status, coloring):
     le = line_end_of(src, e - 1)
     lls = line_start_of(src, e - 1)
     col_s = len(expand_tabs(ctx, src[ls:s]))
-    col_e = len(expand_tabs(ctx, src[lls:e - 1]))
+    col_e = len(expand_tabs(ctx, src[lls:e])) - 1   # the last column the removed text occupies (a removed tab at the very end occupies four)
     out = [32] * (NUMW + 2 + col_s) + (ESC_GREEN if coloring else []) + list(b'_start') + (ESC_RESET if coloring else []) + [10]
     color = (ESC_RED if status == 'Ready' else ESC_YELLOW) if coloring else []
     reset = ESC_RESET if coloring else []
@@ -320,6 +320,11 @@ LIST_TPL = {
     'nonunwrappable-single-empty-line': ["A\n", O('m', PN + ' unwrap-block'), "\n", H(1, 'ind'), "\n", C('m'), "\n", O('t', RT + ' unwrap-block'), "\n\n", C('t'), "\nB\n", O('t', RT), "r", C('t'), H(1, 'txt'), "\n"],
     # a free byte at the start of lines in front of and inside a region (vertical tab, form feed, ... are ordinary text for the line count)
     'free-byte-at-line-starts': ["A\n", H(1, 'txt'), "x\n", H(1, 'txt'), "y\n", O('m', RX), "\n", H(1, 'txt'), "r\n", C('m'), "\nB\n", O('t', RT), "z", C('t'), "\n"],
+    'unicode-line-separators-are-text': ["A\u2028x\n", H(1, 'ind'), O('m', RX), "\nq\u2029r\x0b\n\x0cs\u0085\n", C('m'), "\n", H(1, 'txt'), "B\u2028\n", O('t', RT), "\nz\n", C('t'), "\n"],
+    # the last removed character of the opening part of an unwrapped element is a tab / blank at the end of the wrapper line
+    'unwrap-wrapper-lines-end-in-blanks': ["f() {\n\t", O('m', RX + ' unwrap-block'), "\n\tif (released) {", H(1, 'ind'), "\n\t\tk;\n\t}", H(1, 'ind'), "\n\t", C('m'), "\nB\n"],
+    'flags-with-values': ["A\n", O('t', RT + " skip='true'"), "\nq\n", O('m', PN), "p", C('m'), "\n", C('t'), "\n", O('m', RX + ' unwrap-block="1"'), "\n{\n", O('t', PT), "\nk\n", C('t'), "\n}\n", C('m'), "\n",
+                          O('m', "skip=\"skip\" " + PN), "r", C('m'), H(1, 'txt'), "\nB\n"],
     'leading-line-break': ["\n", H(1, 'ind'), "A\n", O('m', RX), "\nr\n", C('m'), "\nB\n"],
 }
 
